@@ -95,8 +95,10 @@ Producible(s) == /\ Len(s) >= 2 /\ s[Len(s)] = "Newline" /\ s[1] # "Newline"
 
 
 -----------------------------------------------------------------------------
-Init == /\ \E f \in First, n \in 0..(MaxLen - 2) : \E r \in [1..n -> Alphabet \cup {"Newline"}] :
-              raw = <<f>> \o r \o <<"Newline">>
+Init == /\ \E f \in First, n \in 0..(MaxLen - 2) :
+              \* the rest of the stream in two halves (TLC refuses to enumerate a function set above 10^6 elements)
+              \E r1 \in [1..(n \div 2) -> Alphabet \cup {"Newline"}], r2 \in [1..(n - (n \div 2)) -> Alphabet \cup {"Newline"}] :
+                 raw = <<f>> \o r1 \o r2 \o <<"Newline">>
         /\ Producible(raw)
         /\ pos = 1 /\ sol = (Mode \in {"Module", "Interactive"}) /\ out = <<>>
 
